@@ -10,6 +10,12 @@ def G(model, **kw):
 
 
 # parts are "<r1|r2|o1|o2>.<Name>" or "Sdk.Equal"
+def T(model, **kw):
+    d = dict(kind="T", model=model)
+    d.update(kw)
+    return d
+
+
 def L(model, **kw):
     d = dict(kind="L", model=model)
     d.update(kw)
@@ -200,6 +206,29 @@ PROPS["C13"] = dict(
                "(thorough: 3) at a time, every key written with an attribute naming it; Put / Get / Update / Delete(ALL_OLD) / Scan in every "
                "reachable state plus malformed keys on all four operations and updates naming a key attribute; TLC judges identity (the "
                "specification keys items by their key VALUES), rejection of malformed keys and key immutability from answers and full post-states.",
+)
+PROPS["C10"] = dict(
+    title="attribute values survive a write/read round trip unchanged",
+    quick=[T("M_VALS", cfg="M_VALS_1")],
+    thorough=[T("M_VALS", cfg="M_VALS_2")],
+    own=[parts("Outcome", "Data", "Base", "NoCrash"), SDK],
+    design_ref="DESIGN.md 6 C10",
+    level_text="TLC enumerates the value universe up to depth 1 (thorough: 2) with every boundary member - empty string / binary / list / map, "
+               "false, NULL, single-element sets, nested empties, numerals in a dozen notations (-0, trailing zeros, exponent forms, 38 digits, "
+               "the exponent limits); each is written with PutItem and read back through GetItem, Scan, Query and BatchGetItem on both clients; "
+               "TLC compares what comes back with SameValue (sets as sets, numbers by exact decimal value).",
+)
+PROPS["C12"] = dict(
+    title="numbers behave as exact decimals, not floats or strings",
+    quick=[L("M_NUM"), T("M_NUMKEY")],
+    thorough=[L("M_NUM"), T("M_NUMKEY")],
+    own=[labparts("Outcome", "Result", "Modified", "NoCrash"), parts("Outcome", "Data", "Base", "NoCrash")],
+    design_ref="DESIGN.md 6 C12",
+    level_text="17 numerals from a spelling table (canonical, leading / trailing zeros, exponent forms, -0, 2^53 and 2^53+1, 0.1/0.2/0.3, 9 vs 10, "
+               "38 digits), pairwise, in every position a number takes in an expression (six comparators, BETWEEN, IN, contains on number sets, "
+               "SET +/-, ADD, number-set ADD/DELETE) plus updates of an unrelated attribute on items holding them; number-typed and binary-typed "
+               "keys (1 vs 1.0 as one key; sort order 9 < 10, [9] < [9,1] < [10]).  TLC judges with exact decimal arithmetic on digit sequences "
+               "(Decimal.tla).",
 )
 
 # properties deliberately not claimed, with the reason (none so far: unbuilt ones get a work-in-progress reason)
